@@ -146,12 +146,18 @@ func (s *c06Srv) Send(r *repResp) error {
 	return nil
 }
 
+// the rest of grpc.ServerStream, with gRPC's semantics (headers can be set until the first message is sent)
+func (s *c06Srv) SetHeader(metadata.MD) error  { return nil }
+func (s *c06Srv) SendHeader(metadata.MD) error { return nil }
+func (s *c06Srv) SetTrailer(metadata.MD)       {}
+
 // c06Cli: the stream the proxy opens to the source cluster.
 type c06Cli struct {
 	grpc.ClientStream
 	w              *c06World
 	ctx            context.Context
 	md             metadata.MD
+	headerReady    bool // the source has answered at least once (or the stream has ended): response headers are known
 	q              []c06Item[repResp]
 	sent           []*repReq
 	sendFail       bool
@@ -160,6 +166,28 @@ type c06Cli struct {
 
 func (c *c06Cli) Context() context.Context { return c.ctx }
 func (c *c06Cli) connClosed() bool         { return c.w.lifetime.Err() != nil && !c.w.env.noClose }
+
+// Header has gRPC's semantics: it BLOCKS until the source's response headers have arrived — i.e. until the source has
+// sent its first message or the stream has ended (context cancelled, connection closing) — and is not interrupted by
+// anything else.
+func (c *c06Cli) Header() (metadata.MD, error) {
+	w := c.w
+	w.mu.Lock()
+	defer w.mu.Unlock()
+	for {
+		if w.force || c.connClosed() {
+			return nil, errConnClosing
+		}
+		if c.ctx.Err() != nil && !w.env.noE1 {
+			return nil, status.FromContextError(c.ctx.Err()).Err()
+		}
+		if c.headerReady || (w.gateOpen && len(c.q) > 0) {
+			return metadata.MD{}, nil
+		}
+		w.cond.Wait()
+	}
+}
+func (c *c06Cli) Trailer() metadata.MD { return metadata.MD{} }
 func (c *c06Cli) Recv() (*repResp, error) {
 	w := c.w
 	w.mu.Lock()
@@ -180,6 +208,7 @@ func (c *c06Cli) Recv() (*repResp, error) {
 				if !it.sticky {
 					c.q = c.q[1:]
 				}
+				c.headerReady = true
 				return it.v, it.err
 			}
 		}
